@@ -37,6 +37,8 @@ type c34Case struct {
 	At     int    // ... when it is asked for chunk At (At == len(Chunks): instead of io.EOF)
 	Tail   string `json:",omitempty"` // "": the end is a separate (0, io.EOF) read; "eof": the last data comes together with io.EOF; "err": together with a non-EOF error
 	Closer string // "none" | "closer" | "closer+cwe" (also implements CloseWithError; responses only)
+	// what the stream's closing methods return: "" nil | "close" Close fails | "cwe" CloseWithError fails | "both"
+	CloseErr string `json:",omitempty"`
 	Gzip   bool   // response written with WriteGzip (stream wrapped in the compressing stream)
 	WErr   int    // the connection fails once this many bytes were accepted (0 = never)
 	WBuf   int    // size of the bufio.Writer the message is written to
@@ -50,11 +52,17 @@ type c34Case struct {
 var c34Paths = []string{
 	"write,reset", "write,release", "reset", "release", "setbody,release", "replace,release",
 	"body,release", "bodywriteto,reset", "swapbody,release",
+	// the stream is replaced (by a plain body / by a second stream) and the message is written afterwards
+	"setbody,sent,release", "replace,sent,reset",
 }
 
 func (c c34Case) key() string { b, _ := json.Marshal(c); return string(b) }
 
-var errC34Read = errors.New("c34: injected stream read error")
+var (
+	errC34Read  = errors.New("c34: injected stream read error")
+	errC34Close = errors.New("c34: injected stream Close error")
+	errC34CWE   = errors.New("c34: injected stream CloseWithError error")
+)
 
 // c34Stream is the instrumented body stream.
 type c34Stream struct {
@@ -64,6 +72,7 @@ type c34Stream struct {
 	at              int
 	fired           bool
 	tail            string
+	closeErr        string
 	ended           bool
 	idx, off        int // current chunk and offset inside it
 	base            int // pattern offset of the current chunk
@@ -74,7 +83,7 @@ type c34Stream struct {
 }
 
 func c34NewStream(c *c34Case) *c34Stream {
-	return &c34Stream{chunks: c.Chunks, fault: c.Fault, at: c.At, tail: c.Tail}
+	return &c34Stream{chunks: c.Chunks, fault: c.Fault, at: c.At, tail: c.Tail, closeErr: c.CloseErr}
 }
 
 func (s *c34Stream) Read(p []byte) (int, error) {
@@ -135,8 +144,11 @@ type c34Closer struct{ *c34Stream }
 
 func (s c34Closer) Close() error {
 	s.mu.Lock()
+	defer s.mu.Unlock()
 	s.closes++
-	s.mu.Unlock()
+	if s.closeErr == "close" || s.closeErr == "both" {
+		return errC34Close
+	}
 	return nil
 }
 
@@ -144,8 +156,11 @@ type c34CloserCWE struct{ c34Closer }
 
 func (s c34CloserCWE) CloseWithError(error) error {
 	s.mu.Lock()
+	defer s.mu.Unlock()
 	s.cwes++
-	s.mu.Unlock()
+	if s.closeErr == "cwe" || s.closeErr == "both" {
+		return errC34CWE
+	}
 	return nil
 }
 
@@ -180,6 +195,8 @@ type c34Out struct {
 	wireLen  int  // bytes on the wire (for choosing write-error offsets)
 	headEnd  int  // end of the header block on the wire (0 if unknown)
 	wroteOK  bool // the message was written and flushed without error
+	sentOK   bool // "sent" step: the message written after replacing the stream was decoded
+	closeErrReported bool // Write reported the injected Close / CloseWithError error
 	closed   int
 	panicked bool
 	faultAsSuccess bool // a Read error/panic happened and Write+Flush still reported success
@@ -316,6 +333,7 @@ func c34ExecInner(c *c34Case, o *c34Out) {
 	m := c34NewMsg(c.Side, pooled)
 	m.setStream(rd, c34Declared(c))
 	hasClose := c.Closer != "none"
+	var sentWant []byte // what a peer must receive when the message is written after its stream was replaced
 	checkNotTwice := func(after string) {
 		if n, _ := st.closeCount(); n > 1 {
 			o.add("closed-twice:"+after, "%d Close calls after %s", n, after)
@@ -338,6 +356,7 @@ func c34ExecInner(c *c34Case, o *c34Out) {
 			} else {
 				m.resp.SetBody([]byte("x"))
 			}
+			sentWant = []byte("x")
 		case "replace":
 			second := c34NewStream(&c34Case{Fault: "none", Chunks: []int{3}})
 			var rd2 io.Reader = second
@@ -345,11 +364,14 @@ func c34ExecInner(c *c34Case, o *c34Out) {
 				rd2 = c34Closer{second}
 			}
 			m.setStream(rd2, 3)
+			sentWant = c03Pattern[:3]
 			defer func() {
 				if n, _ := second.closeCount(); hasClose && n != 1 {
 					o.add("replacement-stream-close-count", "the replacing stream has %d Close calls after release", n)
 				}
 			}()
+		case "sent":
+			c34Sent(c, m, sentWant, o)
 		case "body":
 			var got []byte
 			p := c34Guarded(func() {
@@ -404,6 +426,43 @@ func c34ExecInner(c *c34Case, o *c34Out) {
 	}
 }
 
+// c34Sent performs the "sent" step: the message, whose instrumented stream was replaced by another body before, is
+// written to a healthy connection; the peer must receive the body that was set last (not the replaced, closed stream).
+func c34Sent(c *c34Case, m *c34Msg, want []byte, o *c34Out) {
+	conn := vnet.NewConn()
+	bw := bufio.NewWriterSize(conn, c.WBuf)
+	err := m.write(bw, false)
+	if err == nil {
+		err = bw.Flush()
+	}
+	if err != nil {
+		o.add("write-after-replacing-the-stream-fails", "the stream was replaced by a fault-free body, writing the message fails: %v", err)
+		return
+	}
+	out := conn.Output()
+	w, err := c03Split(out, c.Side == "resp", false)
+	n, err2 := c03NetHTTP(out, c.Side == "resp", false)
+	if err != nil || err2 != nil {
+		if (err == nil) != (err2 == nil) {
+			o.toolErr = fmt.Sprintf("references disagree on parseability: own=%v net/http=%v wire=%s", err, err2, vrt.Q(c03Clip(out)))
+			return
+		}
+		o.add("written-message-unparseable", "own splitter: %v; net/http: %v; wire=%s", err, err2, vrt.Q(c03Clip(out)))
+		return
+	}
+	if d := c03CrossCheck(w, n); d != "" {
+		o.toolErr = fmt.Sprintf("references disagree (%s) on wire=%s", d, vrt.Q(c03Clip(out)))
+		return
+	}
+	o.sentOK = true
+	if !bytes.Equal(w.Body, want) {
+		o.add("replaced-stream-delivered-instead-of-last-body", "the body set last is %s, the peer decodes %d bytes %s", vrt.Q(want), len(w.Body), vrt.Q(c03Clip(w.Body)))
+	}
+	if w.End != len(out) {
+		o.add("bytes-after-message", "%d bytes follow the message", len(out)-w.End)
+	}
+}
+
 // c34Write performs the "write" step and evaluates the wire.
 func c34Write(c *c34Case, m *c34Msg, st *c34Stream, o *c34Out) {
 	conn := vnet.NewConn()
@@ -435,8 +494,12 @@ func c34Write(c *c34Case, m *c34Msg, st *c34Stream, o *c34Out) {
 		}
 		if werr == nil {
 			werr = bw.Flush()
+		} else if c.CloseErr != "" {
+			// a failing Close is reported after the body went to the buffer: look at everything that would reach the peer
+			bw.Flush() //nolint:errcheck
 		}
 	})
+	o.closeErrReported = werr != nil && (errors.Is(werr, errC34Close) || errors.Is(werr, errC34CWE))
 	if gzDone != nil {
 		select {
 		case <-gzDone:
@@ -759,6 +822,9 @@ func c34Sig(sym string, c *c34Case) string {
 		if c.Closer == "closer+cwe" {
 			parts = append(parts, "cwe")
 		}
+		if c.CloseErr != "" {
+			parts = append(parts, c.CloseErr+"-fails")
+		}
 	}
 	if c.Gzip {
 		parts = append(parts, "gzip")
@@ -826,8 +892,19 @@ func c34Shrink(c c34Case, sym string) c34Case {
 			func(x *c34Case) { x.WErr = 0 },
 			func(x *c34Case) { x.WBuf = 4096 },
 			func(x *c34Case) { x.Gzip = false },
+			func(x *c34Case) { x.CloseErr = "" },
 			func(x *c34Case) {
-				if x.Closer == "closer+cwe" {
+				if x.CloseErr == "both" {
+					x.CloseErr = "close"
+				}
+			},
+			func(x *c34Case) {
+				if x.CloseErr == "both" {
+					x.CloseErr = "cwe"
+				}
+			},
+			func(x *c34Case) {
+				if x.Closer == "closer+cwe" && x.CloseErr != "cwe" && x.CloseErr != "both" {
 					x.Closer = "closer"
 				}
 			},
@@ -911,13 +988,15 @@ func TestVerif_C34(t *testing.T) {
 	sizes := []int{0, 1, 4095, 4096, 4097}
 	maxChunks := vrt.Pick(r, 3, 4)
 	r.Rule(fmt.Sprintf("reader streams: every sequence of at most %d Read results with sizes from %v (0 = a (0,nil) read) x declared size {exact, -1, 5 bytes more than produced, half of what is produced} "+
-		"x Read fault {none, error, panic} at every chunk position (incl. instead of EOF) and, fault-free, the last data returned together with io.EOF or together with a non-EOF error x {plain reader, io.Closer, io.Closer+CloseWithError (responses)} x {Request, Response} "+
-		"x life-cycle path %v; write paths additionally x bufio size {4096, 64 in the thorough tier} x an injected connection write error at every offset of "+
-		"{1, header end -1/0/+1, middle of the body, 4096-multiples +0/+1, last byte} (with Read faults: fault-free only in the quick tier) x Response.WriteGzip wrapping (faults none/error); "+
+		"x Read fault {none, error, panic} at every chunk position (incl. instead of EOF) and, fault-free, the last data returned together with io.EOF or together with a non-EOF error x {plain reader, io.Closer, io.Closer+CloseWithError (responses)} "+
+		"x result of the closing methods {all return nil, Close returns an error, (closer+CloseWithError:) only CloseWithError returns an error, both do} x {Request, Response} "+
+		"x life-cycle path %v ('sent' = the message is written to a healthy connection after its stream was replaced by SetBody / a second 3-byte stream); write paths additionally x bufio size {4096, 64 in the thorough tier} x an injected connection write error at every offset of "+
+		"{1, header end -1/0/+1, middle of the body, 4096-multiples +0/+1, last byte} (with Read faults or failing closing methods: fault-free only in the quick tier) x Response.WriteGzip wrapping (faults none/error, all closing results); "+
 		"StreamWriter bodies: every sequence of at most %d pieces (sizes as above, each followed by Flush) x {Request, Response} x {write,reset / write,release / reset / release} x the same write-error offsets. "+
 		"Oracle: after a successful Write+Flush the wire parses (own splitter cross-checked with net/http) to exactly the bytes the stream handed out, a failing Read / size mismatch is never reported as success, after a failed write "+
-		"the body bytes on the wire are a prefix of the produced bytes and do not exceed a declared fixed size; Close calls == 1 after Write returns and at the end of every path, never 2; a StreamWriter goroutine ends after reset/release. "+
-		"Non-trivial: cases with a Closer that went through an error, panic, mismatch or write-error path, or whose wire framing was decoded", maxChunks, sizes, c34Paths, maxChunks)+
+		"the body bytes on the wire are a prefix of the produced bytes and do not exceed a declared fixed size; Close calls == 1 after Write returns and at the end of every path, never 2 after any step - whatever Close / CloseWithError return; a message written after its stream was replaced delivers the body set last "+
+		"(never the replaced, closed stream) and that write succeeds; a StreamWriter goroutine ends after reset/release. "+
+		"Non-trivial: cases with a Closer that went through an error, panic, mismatch, write-error or failing-close path, or whose wire framing was decoded", maxChunks, sizes, c34Paths, maxChunks)+
 		" || "+c34RRuleText(r.Thorough()))
 	r.Assume("net/http.ReadRequest/ReadResponse and the harness's own RFC 9112 splitter as independent decoders of the wire (they must agree)",
 		"'closed exactly once' is counted on Close(); CloseWithError is a separate method and only required not to replace Close",
@@ -966,12 +1045,22 @@ func TestVerif_C34(t *testing.T) {
 				local["writes_decoded_from_wire"]++
 				nt = true
 			}
+			if o.sentOK {
+				local["writes_after_replacing_the_stream_decoded_from_wire"]++
+				nt = true
+			}
 			if c.Tail != "" {
 				local["cases_with_last_data_returned_with_"+c.Tail]++
 			}
 			if c.Kind == "reader" && c.Closer != "none" {
 				local["closer_cases"]++
-				if c.Fault != "none" || c.WErr > 0 || c.Decl == "short" || c.Decl == "long" {
+				if c.CloseErr != "" {
+					local["closer_cases_with_failing_close_"+c.CloseErr]++
+					if o.closeErrReported {
+						local["observed_close_error_returned_by_write"]++
+					}
+				}
+				if c.Fault != "none" || c.WErr > 0 || c.Decl == "short" || c.Decl == "long" || c.CloseErr != "" {
 					local["closer_cases_on_failure_paths"]++
 					nt = true
 				}
@@ -1014,9 +1103,11 @@ func TestVerif_C34(t *testing.T) {
 		}
 		for _, side := range []string{"resp", "req"} {
 			// ---- reader streams
-			closers := []string{"closer", "none"}
+			// closer kind x what its closing methods return
+			type clo struct{ kind, res string }
+			closers := []clo{{"closer", ""}, {"closer", "close"}, {"none", ""}}
 			if side == "resp" {
-				closers = append(closers, "closer+cwe")
+				closers = append(closers, clo{"closer+cwe", ""}, clo{"closer+cwe", "close"}, clo{"closer+cwe", "cwe"}, clo{"closer+cwe", "both"})
 			}
 			for _, decl := range []string{"exact", "chunked", "short", "long"} {
 				if decl == "long" && c34Total(&c34Case{Chunks: chunks}) == 0 {
@@ -1037,7 +1128,7 @@ func TestVerif_C34(t *testing.T) {
 					}
 					for _, f := range faults {
 						for _, path := range c34Paths {
-							base := c34Case{Kind: "reader", Side: side, Chunks: chunks, Decl: decl, Fault: f.kind, At: f.at, Tail: f.tail, Closer: closer, WBuf: 4096, Path: path}
+							base := c34Case{Kind: "reader", Side: side, Chunks: chunks, Decl: decl, Fault: f.kind, At: f.at, Tail: f.tail, Closer: closer.kind, CloseErr: closer.res, WBuf: 4096, Path: path}
 							if !strings.HasPrefix(path, "write") {
 								run(base)
 								continue
@@ -1045,7 +1136,7 @@ func TestVerif_C34(t *testing.T) {
 							for _, wb := range wbufs {
 								base.WBuf = wb
 								o := run(base)
-								if (f.kind != "none" || f.tail == "err") && !r.Thorough() {
+								if (f.kind != "none" || f.tail == "err" || closer.res != "") && !r.Thorough() {
 									continue
 								}
 								for _, off := range offsets(o) {
@@ -1061,7 +1152,10 @@ func TestVerif_C34(t *testing.T) {
 			// ---- gzip-wrapped response streams
 			if side == "resp" {
 				for _, decl := range []string{"exact", "chunked"} {
-					for _, closer := range []string{"closer", "closer+cwe"} {
+					for _, closer := range closers {
+						if closer.kind == "none" {
+							continue
+						}
 						ats := []int{-1}
 						if len(chunks) > 0 && chunks[len(chunks)-1] > 0 {
 							ats = append(ats, -2) // fault-free, last data together with io.EOF
@@ -1071,7 +1165,7 @@ func TestVerif_C34(t *testing.T) {
 						}
 						for _, at := range ats {
 							for _, path := range []string{"write,reset", "write,release"} {
-								base := c34Case{Kind: "reader", Side: side, Chunks: chunks, Decl: decl, Fault: "none", Closer: closer, WBuf: 4096, Path: path, Gzip: true}
+								base := c34Case{Kind: "reader", Side: side, Chunks: chunks, Decl: decl, Fault: "none", Closer: closer.kind, CloseErr: closer.res, WBuf: 4096, Path: path, Gzip: true}
 								if at >= 0 {
 									base.Fault, base.At = "err", at
 								}
@@ -1079,7 +1173,7 @@ func TestVerif_C34(t *testing.T) {
 									base.Tail = "eof"
 								}
 								o := run(base)
-								if at >= 0 && !r.Thorough() {
+								if (at >= 0 || closer.res != "") && !r.Thorough() {
 									continue
 								}
 								for _, off := range offsets(o) {
